@@ -189,7 +189,7 @@ theorem soundE_succ (fuel : Nat) (ih : Sound Φ K F fuel) (hL : Linked Φ K F) :
     | some r =>
       obtain ⟨va, σ1⟩ := r
       simp only [hea] at he
-      cases hop : applyUn op va with
+      cases hop : unH σ1.a op va with
       | ok r' =>
         simp only [hop, Option.some.injEq, Prod.mk.injEq] at he
         obtain ⟨rfl, rfl⟩ := he
@@ -214,20 +214,23 @@ theorem soundE_succ (fuel : Nat) (ih : Sound Φ K F fuel) (hL : Linked Φ K F) :
       | some rb =>
         obtain ⟨vb, σ2⟩ := rb
         simp only [heb] at he
-        cases hop : execOperator op va vb with
-        | ok r' =>
+        generalize hca : compileE pos k a = ca at *
+        generalize hcb : compileE (pos + bytes ca) (k + (constsE a).length) b = cb at *
+        have ha := ih.E a X pos k ops cx σ σ1 va (hca ▸ codeAt_left (codeAt_left h)) (poolAt_left hp) hx hea
+        have hb := ih.E b X (pos + bytes ca) (k + (constsE a).length) (va :: ops) cx σ1 σ2 vb
+          (hcb ▸ codeAt_right (codeAt_left h)) (poolAt_right hp) hx heb
+        rw [hca] at ha; rw [hcb] at hb
+        have ho : codeAt X.code (pos + bytes ca + bytes cb) [Instr.op op] := (codeAt_right h).to (by parith)
+        cases hop : opH σ2.a op va vb with
+        | same r' =>
           simp only [hop, Option.some.injEq, Prod.mk.injEq] at he
           obtain ⟨rfl, rfl⟩ := he
-          generalize hca : compileE pos k a = ca at *
-          generalize hcb : compileE (pos + bytes ca) (k + (constsE a).length) b = cb at *
-          have ha := ih.E a X pos k ops cx σ σ1 va (hca ▸ codeAt_left (codeAt_left h)) (poolAt_left hp) hx hea
-          have hb := ih.E b X (pos + bytes ca) (k + (constsE a).length) (va :: ops) cx σ1 σ2 vb
-            (hcb ▸ codeAt_right (codeAt_left h)) (poolAt_right hp) hx heb
-          rw [hca] at ha; rw [hcb] at hb
-          have ho : codeAt X.code (pos + bytes ca + bytes cb) [Instr.op op] := (codeAt_right h).to (by parith)
           exact ((ha.trans hb).trans (FSteps.one (fs_op ho hop))).toPc (by parith)
-        | err m => simp [hop] at he
-        | panic m => simp [hop] at he
+        | new r' a' =>
+          simp only [hop, Option.some.injEq, Prod.mk.injEq] at he
+          obtain ⟨rfl, rfl⟩ := he
+          exact ((ha.trans hb).trans (FSteps.one (fs_opNew ho hop))).toPc (by parith)
+        | fail => simp [hop] at he
   | lt l a b =>
     simp only [compileE] at h ⊢
     simp only [evalE] at he
@@ -242,20 +245,23 @@ theorem soundE_succ (fuel : Nat) (ih : Sound Φ K F fuel) (hL : Linked Φ K F) :
       | some ra =>
         obtain ⟨va, σ2⟩ := ra
         simp only [hea] at he
-        cases hop : execOperator .greater vb va with
-        | ok r' =>
+        generalize hcb : compileE pos k b = cb at *
+        generalize hca : compileE (pos + bytes cb) (k + (constsE b).length) a = ca at *
+        have hb := ih.E b X pos k ops cx σ σ1 vb (hcb ▸ codeAt_left (codeAt_left h)) (poolAt_left hp) hx heb
+        have ha := ih.E a X (pos + bytes cb) (k + (constsE b).length) (vb :: ops) cx σ1 σ2 va
+          (hca ▸ codeAt_right (codeAt_left h)) (poolAt_right hp) hx hea
+        rw [hcb] at hb; rw [hca] at ha
+        have ho : codeAt X.code (pos + bytes cb + bytes ca) [Instr.op .greater] := (codeAt_right h).to (by parith)
+        cases hop : opH σ2.a .greater vb va with
+        | same r' =>
           simp only [hop, Option.some.injEq, Prod.mk.injEq] at he
           obtain ⟨rfl, rfl⟩ := he
-          generalize hcb : compileE pos k b = cb at *
-          generalize hca : compileE (pos + bytes cb) (k + (constsE b).length) a = ca at *
-          have hb := ih.E b X pos k ops cx σ σ1 vb (hcb ▸ codeAt_left (codeAt_left h)) (poolAt_left hp) hx heb
-          have ha := ih.E a X (pos + bytes cb) (k + (constsE b).length) (vb :: ops) cx σ1 σ2 va
-            (hca ▸ codeAt_right (codeAt_left h)) (poolAt_right hp) hx hea
-          rw [hcb] at hb; rw [hca] at ha
-          have ho : codeAt X.code (pos + bytes cb + bytes ca) [Instr.op .greater] := (codeAt_right h).to (by parith)
           exact ((hb.trans ha).trans (FSteps.one (fs_op ho hop))).toPc (by parith)
-        | err m => simp [hop] at he
-        | panic m => simp [hop] at he
+        | new r' a' =>
+          simp only [hop, Option.some.injEq, Prod.mk.injEq] at he
+          obtain ⟨rfl, rfl⟩ := he
+          exact ((hb.trans ha).trans (FSteps.one (fs_opNew ho hop))).toPc (by parith)
+        | fail => simp [hop] at he
   | le l a b =>
     simp only [compileE] at h ⊢
     simp only [evalE] at he
@@ -270,20 +276,23 @@ theorem soundE_succ (fuel : Nat) (ih : Sound Φ K F fuel) (hL : Linked Φ K F) :
       | some ra =>
         obtain ⟨va, σ2⟩ := ra
         simp only [hea] at he
-        cases hop : execOperator .greaterEq vb va with
-        | ok r' =>
+        generalize hcb : compileE pos k b = cb at *
+        generalize hca : compileE (pos + bytes cb) (k + (constsE b).length) a = ca at *
+        have hb := ih.E b X pos k ops cx σ σ1 vb (hcb ▸ codeAt_left (codeAt_left h)) (poolAt_left hp) hx heb
+        have ha := ih.E a X (pos + bytes cb) (k + (constsE b).length) (vb :: ops) cx σ1 σ2 va
+          (hca ▸ codeAt_right (codeAt_left h)) (poolAt_right hp) hx hea
+        rw [hcb] at hb; rw [hca] at ha
+        have ho : codeAt X.code (pos + bytes cb + bytes ca) [Instr.op .greaterEq] := (codeAt_right h).to (by parith)
+        cases hop : opH σ2.a .greaterEq vb va with
+        | same r' =>
           simp only [hop, Option.some.injEq, Prod.mk.injEq] at he
           obtain ⟨rfl, rfl⟩ := he
-          generalize hcb : compileE pos k b = cb at *
-          generalize hca : compileE (pos + bytes cb) (k + (constsE b).length) a = ca at *
-          have hb := ih.E b X pos k ops cx σ σ1 vb (hcb ▸ codeAt_left (codeAt_left h)) (poolAt_left hp) hx heb
-          have ha := ih.E a X (pos + bytes cb) (k + (constsE b).length) (vb :: ops) cx σ1 σ2 va
-            (hca ▸ codeAt_right (codeAt_left h)) (poolAt_right hp) hx hea
-          rw [hcb] at hb; rw [hca] at ha
-          have ho : codeAt X.code (pos + bytes cb + bytes ca) [Instr.op .greaterEq] := (codeAt_right h).to (by parith)
           exact ((hb.trans ha).trans (FSteps.one (fs_op ho hop))).toPc (by parith)
-        | err m => simp [hop] at he
-        | panic m => simp [hop] at he
+        | new r' a' =>
+          simp only [hop, Option.some.injEq, Prod.mk.injEq] at he
+          obtain ⟨rfl, rfl⟩ := he
+          exact ((hb.trans ha).trans (FSteps.one (fs_opNew ho hop))).toPc (by parith)
+        | fail => simp [hop] at he
   | and l a b =>
     simp only [compileE] at h ⊢
     simp only [evalE] at he
@@ -304,7 +313,7 @@ theorem soundE_succ (fuel : Nat) (ih : Sound Φ K F fuel) (hL : Linked Φ K F) :
         simpa [bytes_append, bytes, Instr.size, Nat.add_assoc] using this
       have hbb : codeAt X.code (pos + bytes ca + 3 + 1) cb := (codeAt_right h).to (by parith)
       refine ha.trans ?_
-      by_cases hf : va.isFalsey = true
+      by_cases hf : falseyH σ1.a va = true
       · simp only [hf, if_true, Option.some.injEq, Prod.mk.injEq] at he
         obtain ⟨rfl, rfl⟩ := he
         refine (FSteps.one (fs_jifnp hj)).toPc ?_
@@ -337,7 +346,7 @@ theorem soundE_succ (fuel : Nat) (ih : Sound Φ K F fuel) (hL : Linked Φ K F) :
         simpa [bytes_append, bytes, Instr.size, Nat.add_assoc] using this
       have hbb : codeAt X.code (pos + bytes ca + 3 + 3 + 1) cb := (codeAt_right h).to (by parith)
       refine ha.trans ?_
-      by_cases hf : va.isFalsey = true
+      by_cases hf : falseyH σ1.a va = true
       · simp only [hf, if_true] at he
         have hb := ih.E b X (pos + bytes ca + 3 + 3 + 1) (k + (constsE a).length) ops cx σ1 σ' v (hcb ▸ hbb) (poolAt_right hp) hx he
         rw [hcb] at hb
@@ -373,7 +382,7 @@ theorem soundE_succ (fuel : Nat) (ih : Sound Φ K F fuel) (hL : Linked Φ K F) :
         have := poolAt_right hp
         simpa [Nat.add_assoc] using this
       refine hc.trans ?_
-      by_cases hf : vc.isFalsey = true
+      by_cases hf : falseyH σ1.a vc = true
       · simp only [hf, if_true] at he
         have hb := ih.E e X (pos + bytes cc + 3 + bytes ct + 3) _ ops cx σ1 σ' v (hce ▸ hee) hpe hx he
         rw [hce] at hb
@@ -463,22 +472,23 @@ theorem soundE_succ (fuel : Nat) (ih : Sound Φ K F fuel) (hL : Linked Φ K F) :
             by_cases harity : vs.length = d.np
             · simp only [harity, if_true] at he
               -- the call: a fresh activation
-              have hstep := fstep_call (K := K) (F := F) (X := X) (g := σ2.g) (hp' := σ2.h) (fr := fr) (id := id)
+              have hstep := fstep_call (K := K) (F := F) (X := X) (g := σ2.g) (hp' := σ2.h) (a := σ2.a) (fr := fr) (id := id)
                 (rest := ops ++ (σ2.l.reverse ++ X.base)) hcall hlen (by rw [hnp, ← harity, hlen]) hF
               let X' := X.callee (pos + bytes cf + bytes ca) (compileFn kd d) fd id (.clos fd fr id :: (ops ++ (σ2.l.reverse ++ X.base)))
               have hx' : Agree (some (fd, id)) X' := by
                 intro fd' id' hfd'
                 cases hfd'
                 exact ⟨rfl, rfl, by simp [X', Ctxt.callee]⟩
-              cases hb : evalP Φ fuel (some (fd, id)) ⟨vs ++ List.replicate (d.nl - d.np) .null, σ2.g, σ2.h⟩ d.body with
+              simp only [Sto.enter_eq, Sto.back_eq] at he
+              cases hb : evalP Φ fuel (some (fd, id)) ⟨vs ++ List.replicate (d.nl - d.np) .null, σ2.g, σ2.h, σ2.a⟩ d.body with
               | none => simp [hb] at he
               | some rb =>
                 obtain ⟨σ3, fb, bv⟩ := rb
                 have hbody := ih.T d.body X' 0 kd [] [] fd id _ σ3 fb bv ⟨[], [], by simp [X', Ctxt.callee, compileFn], rfl⟩ hpd hx' hb
-                have hstart : FSteps K F (X.st pos ops σ) (X'.st 0 [] ⟨vs ++ List.replicate (d.nl - d.np) .null, σ2.g, σ2.h⟩) := by
+                have hstart : FSteps K F (X.st pos ops σ) (X'.st 0 [] ⟨vs ++ List.replicate (d.nl - d.np) .null, σ2.g, σ2.h, σ2.a⟩) := by
                   refine (s1.trans s2).trans (FSteps.one ?_)
                   have hst : X.st (pos + bytes cf + bytes ca) (vs.reverse ++ Val.clos fd fr id :: ops) σ2 =
-                      X.at (pos + bytes cf + bytes ca) (vs.reverse ++ (Val.clos fd fr id :: (ops ++ (σ2.l.reverse ++ X.base)))) σ2.g σ2.h := by
+                      X.at (pos + bytes cf + bytes ca) (vs.reverse ++ (Val.clos fd fr id :: (ops ++ (σ2.l.reverse ++ X.base)))) σ2.g σ2.h σ2.a := by
                     simp [Ctxt.st]
                   rw [← hnl, ← harity, hlen, hst]
                   exact hstep
@@ -497,7 +507,131 @@ theorem soundE_succ (fuel : Nat) (ih : Sound Φ K F fuel) (hL : Linked Φ K F) :
                 | brk lb => simp at he
                 | cont lb => simp at he
             · simp [harity] at he
+        | builtin name =>
+          simp only at he
+          cases hr : callBuiltinH σ2.a name vs with
+          | none => simp [hr] at he
+          | some ra =>
+            obtain ⟨r, a'⟩ := ra
+            simp only [hr, Option.some.injEq, Prod.mk.injEq] at he
+            obtain ⟨rfl, rfl⟩ := he
+            have hcall' : codeAt X.code (pos + bytes cf + bytes ca) [Instr.call vs.length] := by rw [hlen]; exact hcall
+            exact ((s1.trans s2).trans (FSteps.one (fstep_callBuiltin hcall' hr))).toPc (by parith)
         | _ => simp at he
+  | arrLit l es =>
+    simp only [compileE] at h ⊢
+    simp only [evalE] at he
+    simp only [constsE] at hp
+    cases hea : evalArgs Φ fuel cx σ es with
+    | none => simp [hea] at he
+    | some ra =>
+      obtain ⟨vs, σ1⟩ := ra
+      simp only [hea] at he
+      cases hmk : mkArr σ1.a vs with
+      | mk m a' =>
+        simp only [hmk, Option.some.injEq, Prod.mk.injEq] at he
+        obtain ⟨rfl, rfl⟩ := he
+        generalize hca : compileArgs pos k es = ca at *
+        obtain ⟨s1, hlen⟩ := ih.Args es X pos k ops cx σ σ1 vs (hca ▸ codeAt_left h) hp hx hea
+        rw [hca] at s1
+        have hm : codeAt X.code (pos + bytes ca) [Instr.array vs.length] := by rw [hlen]; exact codeAt_right h
+        exact (s1.trans (FSteps.one (fstep_array hm hmk))).toPc (by parith)
+  | mapLit l es =>
+    simp only [compileE] at h ⊢
+    simp only [evalE] at he
+    simp only [constsE] at hp
+    cases hea : evalArgs Φ fuel cx σ es with
+    | none => simp [hea] at he
+    | some ra =>
+      obtain ⟨vs, σ1⟩ := ra
+      simp only [hea] at he
+      cases hmk : mkMap σ1.a vs with
+      | none => simp [hmk] at he
+      | some ma =>
+        obtain ⟨m, a'⟩ := ma
+        simp only [hmk, Option.some.injEq, Prod.mk.injEq] at he
+        obtain ⟨rfl, rfl⟩ := he
+        generalize hca : compileArgs pos k es = ca at *
+        obtain ⟨s1, hlen⟩ := ih.Args es X pos k ops cx σ σ1 vs (hca ▸ codeAt_left h) hp hx hea
+        rw [hca] at s1
+        have hm : codeAt X.code (pos + bytes ca) [Instr.hmap vs.length] := by rw [hlen]; exact codeAt_right h
+        exact (s1.trans (FSteps.one (fstep_hmap hm hmk))).toPc (by parith)
+  | index l c i =>
+    simp only [compileE] at h ⊢
+    simp only [evalE] at he
+    simp only [constsE] at hp
+    cases hec : evalE Φ fuel cx σ c with
+    | none => simp [hec] at he
+    | some rc =>
+      obtain ⟨vc, σ1⟩ := rc
+      simp only [hec] at he
+      cases hei : evalE Φ fuel cx σ1 i with
+      | none => simp [hei] at he
+      | some ri =>
+        obtain ⟨vi, σ2⟩ := ri
+        simp only [hei] at he
+        cases hg : getIndexH σ2.a vc vi with
+        | none => simp [hg] at he
+        | some r =>
+          simp only [hg, Option.some.injEq, Prod.mk.injEq] at he
+          obtain ⟨rfl, rfl⟩ := he
+          generalize hcc : compileE pos k c = cc at *
+          generalize hci : compileE (pos + bytes cc) (k + (constsE c).length) i = ci at *
+          have hc := ih.E c X pos k ops cx σ σ1 vc (hcc ▸ codeAt_left (codeAt_left h)) (poolAt_left hp) hx hec
+          have hi := ih.E i X (pos + bytes cc) (k + (constsE c).length) (vc :: ops) cx σ1 σ2 vi
+            (hci ▸ codeAt_right (codeAt_left h)) (poolAt_right hp) hx hei
+          rw [hcc] at hc; rw [hci] at hi
+          have ho : codeAt X.code (pos + bytes cc + bytes ci) [Instr.getIndex] := (codeAt_right h).to (by parith)
+          exact ((hc.trans hi).trans (FSteps.one (fstep_getIndex ho hg))).toPc (by parith)
+  | setIndex l c i e =>
+    simp only [compileE] at h ⊢
+    simp only [evalE] at he
+    simp only [constsE] at hp
+    cases hee : evalE Φ fuel cx σ e with
+    | none => simp [hee] at he
+    | some re =>
+      obtain ⟨ve, σ1⟩ := re
+      simp only [hee] at he
+      cases hec : evalE Φ fuel cx σ1 c with
+      | none => simp [hec] at he
+      | some rc =>
+        obtain ⟨vc, σ2⟩ := rc
+        simp only [hec] at he
+        cases hei : evalE Φ fuel cx σ2 i with
+        | none => simp [hei] at he
+        | some ri =>
+          obtain ⟨vi, σ3⟩ := ri
+          simp only [hei] at he
+          cases hg : setIndexH σ3.a vc vi ve with
+          | none => simp [hg] at he
+          | some a' =>
+            simp only [hg, Option.some.injEq, Prod.mk.injEq] at he
+            obtain ⟨rfl, rfl⟩ := he
+            generalize hce : compileE pos k e = ce at *
+            generalize hcc : compileE (pos + bytes ce) (k + (constsE e).length) c = cc at *
+            generalize hci : compileE (pos + bytes ce + bytes cc) (k + (constsE e).length + (constsE c).length) i = ci at *
+            have h' : codeAt X.code pos (ce ++ cc ++ ci ++ [Instr.setIndex]) := h
+            have hpe : poolAt K k (constsE e) := poolAt_left (poolAt_left hp)
+            have hpc : poolAt K (k + (constsE e).length) (constsE c) := poolAt_right (poolAt_left hp)
+            have hpi : poolAt K (k + (constsE e).length + (constsE c).length) (constsE i) := by
+              have := poolAt_right hp
+              simpa [Nat.add_assoc] using this
+            have s1 := ih.E e X pos k ops cx σ σ1 ve (hce ▸ codeAt_left (codeAt_left (codeAt_left h'))) hpe hx hee
+            have s2 := ih.E c X (pos + bytes ce) _ (ve :: ops) cx σ1 σ2 vc (hcc ▸ codeAt_right (codeAt_left (codeAt_left h'))) hpc hx hec
+            have s3 := ih.E i X (pos + bytes ce + bytes cc) _ (vc :: ve :: ops) cx σ2 σ3 vi
+              (hci ▸ (codeAt_right (codeAt_left h')).to (by parith)) hpi hx hei
+            rw [hce] at s1; rw [hcc] at s2; rw [hci] at s3
+            have ho : codeAt X.code (pos + bytes ce + bytes cc + bytes ci) [Instr.setIndex] := (codeAt_right h').to (by parith)
+            exact (((s1.trans s2).trans s3).trans (FSteps.one (fstep_setIndex ho hg))).toPc (by parith)
+  | bfn l i =>
+    simp only [evalE] at he
+    cases hn : builtinName i with
+    | none => simp [hn] at he
+    | some n =>
+      simp only [hn, Option.some.injEq, Prod.mk.injEq] at he
+      obtain ⟨rfl, rfl⟩ := he
+      simp only [compileE] at h ⊢
+      exact (FSteps.one (fstep_getBuiltin h hn)).toPc (by parith)
 
 
 theorem soundArms_succ (fuel : Nat) (ih : Sound Φ K F fuel) : SoundArms Φ K F (fuel + 1) := by
@@ -546,7 +680,7 @@ theorem soundArms_succ (fuel : Nat) (ih : Sound Φ K F fuel) : SoundArms Φ K F 
     have hpr : poolAt K (k + (patsConsts ps).length + (constsE body).length) (constsArms rest) := by
       have := poolAt_right hp
       simpa [Nat.add_assoc] using this
-    cases hm : patsTest v ps with
+    cases hm : patsTestH σ.a v ps with
     | none => simp [hm] at he
     | some b =>
       have sp := fs_pats (K := K) (F := F) (X := X) ps pos k (pos + patsBytes ps + 3) v ops σ b hpats hpp hm
@@ -616,21 +750,21 @@ theorem exitT_T {X : Ctxt} {ctx ops σ f b1 b2} (h : f ≠ FFlow.normal) : exitT
   cases f <;> simp_all [exitT, exitS]
 
 theorem fs_retv {X : Ctxt} {pc : Nat} {v : Val} {ops : List Val} {σ : Sto} (h : codeAt X.code pc [Instr.retv]) (hc : X.callers ≠ []) :
-    fstep K F (X.st pc (v :: ops) σ) = some (retSt X v σ.g σ.h) := by
+    fstep K F (X.st pc (v :: ops) σ) = some (retSt X v σ.g σ.h σ.a) := by
   cases hcs : X.callers with
   | nil => exact absurd hcs hc
   | cons c cs =>
-    have := fstep_retv (K := K) (F := F) (X := X) (Y := ops ++ σ.l.reverse) (g := σ.g) (hp := σ.h) (v := v) h hcs
+    have := fstep_retv (K := K) (F := F) (X := X) (Y := ops ++ σ.l.reverse) (g := σ.g) (hp := σ.h) (a := σ.a) (v := v) h hcs
     simp only [List.append_assoc] at this
     simp only [Ctxt.st, List.cons_append, retSt, hcs]
     exact this
 
 theorem fs_ret {X : Ctxt} {pc : Nat} {ops : List Val} {σ : Sto} (h : codeAt X.code pc [Instr.ret]) (hc : X.callers ≠ []) :
-    fstep K F (X.st pc ops σ) = some (retSt X .null σ.g σ.h) := by
+    fstep K F (X.st pc ops σ) = some (retSt X .null σ.g σ.h σ.a) := by
   cases hcs : X.callers with
   | nil => exact absurd hcs hc
   | cons c cs =>
-    have := fstep_ret (K := K) (F := F) (X := X) (Y := ops ++ σ.l.reverse) (g := σ.g) (hp := σ.h) h hcs
+    have := fstep_ret (K := K) (F := F) (X := X) (Y := ops ++ σ.l.reverse) (g := σ.g) (hp := σ.h) (a := σ.a) h hcs
     simp only [List.append_assoc] at this
     simp only [Ctxt.st, retSt, hcs]
     exact this
@@ -782,7 +916,7 @@ theorem soundIfV_succ (fuel : Nat) (ih : Sound Φ K F fuel) : SoundIfV Φ K F (f
       have := poolAt_right hp
       simpa [Nat.add_assoc] using this
     have s0 := hc.trans (FSteps.one (fs_jif hj))
-    by_cases hf : vc.isFalsey = true
+    by_cases hf : falseyH σ1.a vc = true
     · simp only [hf, if_true] at he s0
       have hb := ih.V els X _ _ ctx ops cx σ1 σ' f bv (hce ▸ hee) hpe hx he
       rw [hce] at hb
@@ -1136,7 +1270,7 @@ theorem soundS_succ (fuel : Nat) (ih : Sound Φ K F fuel) (hI : SoundIfV Φ K F 
       have hback : codeAt X.code (pos + bytes cc + 3 + bytes cb) [Instr.jump pos] :=
         (codeAt_right h).to (by parith)
       have s0 := hc.trans (FSteps.one (fs_jif hj))
-      by_cases hf : vc.isFalsey = true
+      by_cases hf : falseyH σ1.a vc = true
       · simp only [hf, if_true, Option.some.injEq, Prod.mk.injEq] at he s0
         obtain ⟨rfl, rfl, rfl⟩ := he
         exact s0.to (by simp [exitS]; exact congrArg (fun p => X.st p ops _) (by simp [bytes_append, bytes, Instr.size, hsz]; omega))
